@@ -35,9 +35,10 @@ type fieldRec struct {
 }
 
 type structRec struct {
-	Rel    string     `json:"rel"`
-	Type   string     `json:"type"`
-	Fields []fieldRec `json:"fields"`
+	Rel     string     `json:"rel"`
+	Type    string     `json:"type"`
+	Fields  []fieldRec `json:"fields"`
+	Methods []string   `json:"methods,omitempty"`
 }
 
 type anchorsIndex struct {
@@ -54,8 +55,9 @@ type renameState struct {
 	byQName  map[string]string    // reference qualified name -> current qualified name
 	notes    []string
 	refNames map[*types.Func]string
-	structs  map[string]structRec  // rel|TypeName of the reference tree
-	fieldRef map[*types.Var]string // current field object -> reference name (only for renamed fields)
+	structs  map[string]structRec       // rel|TypeName of the reference tree
+	fieldRef map[*types.Var]string      // current field object -> reference name (renamed fields only)
+	typeRef  map[*types.TypeName]string // current struct type -> reference name (renamed types only)
 	applied  bool
 }
 
@@ -257,6 +259,12 @@ func writeAnchorsIndex(p *Prog, path string) (int, error) {
 			for i := 0; i < st.NumFields(); i++ {
 				sr.Fields = append(sr.Fields, fieldRec{st.Field(i).Name(), types.TypeString(st.Field(i).Type(), nil)})
 			}
+			if nt, ok := tn.Type().(*types.Named); ok {
+				for i := 0; i < nt.NumMethods(); i++ {
+					sr.Methods = append(sr.Methods, nt.Method(i).Name())
+				}
+				sort.Strings(sr.Methods)
+			}
 			structs = append(structs, sr)
 		}
 	}
@@ -336,6 +344,81 @@ func (p *Prog) applyRenames() {
 	}
 	rs.applied = true
 	rs.fieldRef = map[*types.Var]string{}
+	rs.typeRef = map[*types.TypeName]string{}
+	// struct types: a type whose name the reference tree did not have, matched to a reference struct of the same
+	// package whose name disappeared, with the same number of fields and the closest method set
+	for _, pk := range p.Pkgs {
+		rel := strings.TrimPrefix(strings.TrimPrefix(pk.PkgPath, modPath), "/")
+		sc := pk.Types.Scope()
+		gone := map[string]structRec{}
+		for k, sr := range rs.structs {
+			if sr.Rel == rel && sc.Lookup(sr.Type) == nil {
+				gone[k] = sr
+			}
+		}
+		if len(gone) == 0 {
+			continue
+		}
+		for _, nm := range sc.Names() {
+			tn, ok := sc.Lookup(nm).(*types.TypeName)
+			if !ok || tn.IsAlias() {
+				continue
+			}
+			if _, known := rs.structs[rel+"|"+nm]; known {
+				continue
+			}
+			st, ok := tn.Type().Underlying().(*types.Struct)
+			if !ok {
+				continue
+			}
+			var meths []string
+			if nt, ok := tn.Type().(*types.Named); ok {
+				for i := 0; i < nt.NumMethods(); i++ {
+					meths = append(meths, nt.Method(i).Name())
+				}
+			}
+			best, bestScore := "", -1.0
+			for k, sr := range gone {
+				if len(sr.Fields) != st.NumFields() {
+					continue
+				}
+				same := 0
+				for i, f := range sr.Fields {
+					if st.Field(i).Name() == f.Name {
+						same++
+					}
+				}
+				want := map[string]bool{}
+				for _, m := range sr.Methods {
+					want[m] = true
+				}
+				inter := 0
+				for _, m := range meths {
+					if want[m] {
+						inter++
+					}
+				}
+				union := len(meths) + len(want) - inter
+				score := 0.0
+				if union > 0 {
+					score = float64(inter) / float64(union)
+				} else if st.NumFields() > 0 {
+					score = float64(same) / float64(st.NumFields())
+				}
+				if st.NumFields() > 0 {
+					score = (score + float64(same)/float64(st.NumFields())) / 2
+				}
+				if score > bestScore {
+					best, bestScore = k, score
+				}
+			}
+			if best != "" && bestScore >= 0.5 {
+				rs.typeRef[tn] = gone[best].Type
+				rs.notes = append(rs.notes, "type "+rel+":"+gone[best].Type+" not found under that name; resolved to "+nm+" (same package, same shape)")
+				delete(gone, best)
+			}
+		}
+	}
 	// fields: per struct type present in both trees
 	for _, pk := range p.Pkgs {
 		rel := strings.TrimPrefix(strings.TrimPrefix(pk.PkgPath, modPath), "/")
@@ -349,7 +432,11 @@ func (p *Prog) applyRenames() {
 			if !ok {
 				continue
 			}
-			ref, ok := rs.structs[rel+"|"+nm]
+			refTypeName := nm
+			if rn, ok := rs.typeRef[tn]; ok {
+				refTypeName = rn
+			}
+			ref, ok := rs.structs[rel+"|"+refTypeName]
 			if !ok {
 				continue
 			}
@@ -421,6 +508,10 @@ func (p *Prog) applyRenames() {
 							edits = append(edits, edit{id, rn})
 						}
 					}
+				case *types.TypeName:
+					if rn, ok := rs.typeRef[o]; ok {
+						edits = append(edits, edit{id, rn})
+					}
 				case *types.Func:
 					if o.Pkg() != nil && strings.HasPrefix(o.Pkg().Path(), modPath) && !o.Exported() {
 						if rn := refName(o); rn != o.Name() {
@@ -447,6 +538,12 @@ func objName(o interface{ Name() string }) string {
 	switch x := o.(type) {
 	case *types.Func:
 		return refName(x)
+	case *types.TypeName:
+		if x != nil && theProg != nil && theProg.ren != nil {
+			if rn, ok := theProg.ren.typeRef[x]; ok {
+				return rn
+			}
+		}
 	case *types.Var:
 		if x != nil && x.IsField() && theProg != nil && theProg.ren != nil {
 			if rn, ok := theProg.ren.fieldRef[x]; ok {
